@@ -19,9 +19,14 @@ import tempfile
 import common
 import fsops
 
-# TODO(pending registration in known_findings.json): misbehaviour of the UNCHANGED library exposed by the C18
-# failed-close coverage; reported to the framework owner, kept quiet here until the signatures are registered.
+# Signatures that are NOT violations (decided by the framework owner):
+#  - TempFS.clean() is the documented way to delete the directory of a TempFS(auto_clean=False); calling it after close()
+#    is its intended use, so "changed stored data" is expected there.
+# (The eleven signatures about WriteZipFS/WriteTarFS after a FAILED close() that used to be listed here were a genuine
+#  defect - FS.close() was reached only when the archive write succeeded - repaired in /repo 4c92948; they are
+#  violations again if they ever return.)
 PENDING_FINDINGS = [
+    "call after close() changed stored data: TempFS.clean",
 ]
 
 NON_DATA = {"getmeta", "lock", "getsyspath", "getospath", "geturl", "hassyspath", "hasurl", "isclosed",
